@@ -12,15 +12,10 @@
 (* Symbols are one-character strings (plus "x00", "xff", ... for binary bytes); Code maps *)
 (* a symbol to its byte value.  Integers are kept as sign + digit sequence, never as TLC  *)
 (* integers, so the i64 range does not depend on TLC's 32-bit arithmetic.                 *)
-EXTENDS Naturals, Sequences, FiniteSets, TLC, SequencesExt
+EXTENDS BencodeValues
 
 CONSTANTS Alphabet,   \* symbols the environment may feed
-          MaxLen,     \* bound on the input length
-          Code        \* symbol -> byte value (bytewise key order)
-
-Digits == {"0", "1", "2", "3", "4", "5", "6", "7", "8", "9"}
-DV == ("0" :> 0) @@ ("1" :> 1) @@ ("2" :> 2) @@ ("3" :> 3) @@ ("4" :> 4) @@
-      ("5" :> 5) @@ ("6" :> 6) @@ ("7" :> 7) @@ ("8" :> 8) @@ ("9" :> 9)
+          MaxLen      \* bound on the input length
 
 VARIABLES inp,    \* symbols consumed so far
           stack,  \* open containers, bottom is the top level: [k, items]
@@ -33,23 +28,10 @@ vars == <<inp, stack, mode, acc, nc>>
 
 Acc0 == [neg |-> FALSE, d |-> <<>>, n |-> 0, v |-> <<>>]
 
-IntV(neg, d) == [t |-> "i", neg |-> neg, d |-> d]
-StrV(v)      == [t |-> "s", v |-> v]
-ConV(k, its) == [t |-> k, v |-> its]          \* k = "l" or "d" (d: k1,v1,k2,v2,... in input order)
-
 Top == stack[Len(stack)]
 
 \* the top container is a dictionary waiting for a key
 KeyTurn == Top.k = "d" /\ Len(Top.items) % 2 = 0
-
-RECURSIVE LexLess(_, _)
-LexLess(a, b) == IF a = <<>> THEN b # <<>>
-                 ELSE IF b = <<>> THEN FALSE
-                 ELSE IF Code[Head(a)] # Code[Head(b)] THEN Code[Head(a)] < Code[Head(b)]
-                 ELSE LexLess(Tail(a), Tail(b))
-
-\* keys of a finished dictionary <<k1,v1,k2,v2,...>> strictly ascending
-KeysAscending(its) == \A i \in 1..(Len(its) \div 2 - 1) : LexLess(its[2*i-1].v, its[2*i+1].v)
 
 Init == /\ inp = <<>>
         /\ stack = << [k |-> "top", items |-> <<>>] >>
@@ -131,25 +113,7 @@ Values    == stack[1].items
 Dead      == mode = "dead"                 \* no extension can be accepted
 
 -----------------------------------------------------------------------------
-(* Part 2: canonical encoder *)
-RECURSIVE NatDigits(_)
-NatDigits(n) == IF n < 10 THEN << CHOOSE c \in Digits : DV[c] = n >>
-                ELSE Append(NatDigits(n \div 10), CHOOSE c \in Digits : DV[c] = n % 10)
-
-RECURSIVE Enc(_)
-EncAll(vs) == FoldLeft(LAMBDA a, v : a \o Enc(v), <<>>, vs)
-\* pairs <<k1,v1,k2,v2,...>> -> sequence of [k, v] with the LAST occurrence of a key winning
-Pairs(its) == LET n == Len(its) \div 2
-                  key(i) == its[2*i-1].v
-                  lastIdx == {i \in 1..n : \A j \in (i+1)..n : key(j) # key(i)}
-                  order == SetToSortSeq(lastIdx, LAMBDA i, j : LexLess(key(i), key(j)))
-              IN  [x \in 1..Len(order) |-> [k |-> key(order[x]), v |-> its[2*order[x]]]]
-Enc(v) == CASE v.t = "i" -> <<"i">> \o (IF v.neg THEN <<"-">> ELSE <<>>) \o v.d \o <<"e">>
-            [] v.t = "s" -> NatDigits(Len(v.v)) \o <<":">> \o v.v
-            [] v.t = "l" -> <<"l">> \o EncAll(v.v) \o <<"e">>
-            [] v.t = "d" -> <<"d">> \o FoldLeft(LAMBDA a, p : a \o Enc(StrV(p.k)) \o Enc(p.v),
-                                                 <<>>, Pairs(v.v)) \o <<"e">>
-
+(* Part 2: the canonical encoder Enc lives in BencodeValues.tla *)
 \* Design-level statement of C15 on the model: re-encoding what an accepted document decodes to
 \* reproduces the document exactly when the document is canonical, and is never longer.
 Canonical   == ~nc
